@@ -103,3 +103,66 @@ Lemma guard_spec cutoff ndim : guard cutoff ndim = true <-> (cutoff <= 0 \/ inje
 Proof.
   unfold guard. rewrite orb_true_iff. rewrite !Qle_bool_iff. reflexivity.
 Qed.
+
+(** ---- the weight is the stated Butterworth gain 1 / (1 + (|f| / cutoff)^(2 order)), |f| in cycles per pixel ---- *)
+Lemma qpow_comp x y n : (x == y)%Q -> (qpow x n == qpow y n)%Q.
+Proof. intro E. induction n as [|n IH]; cbn [qpow]; [reflexivity|]. rewrite IH, E. reflexivity. Qed.
+
+Lemma qpow_le x y n : (0 <= x)%Q -> (x <= y)%Q -> (qpow x n <= qpow y n)%Q.
+Proof.
+  intros Hx Hxy. induction n as [|n IH]; cbn [qpow]; [apply Qle_refl|].
+  apply Qle_trans with (x * qpow y n)%Q.
+  - rewrite !(Qmult_comm x). apply Qmult_le_compat_r; assumption.
+  - apply Qmult_le_compat_r; [assumption|]. apply qpow_nonneg. apply Qle_trans with x; assumption.
+Qed.
+
+Definition freq2 (k0 k1 k2 d0 d1 d2 : Z) : Q :=
+  ((inject_Z k0 / inject_Z d0) * (inject_Z k0 / inject_Z d0) + (inject_Z k1 / inject_Z d1) * (inject_Z k1 / inject_Z d1)
+   + (inject_Z k2 / inject_Z d2) * (inject_Z k2 / inject_Z d2))%Q.
+
+Lemma inject_Z_nz d : d <> 0%Z -> ~ (inject_Z d == 0)%Q.
+Proof. intros H E. apply H. apply (proj1 (inject_Z_injective d 0)). exact E. Qed.
+
+Lemma weight_formula (k0 k1 k2 d0 d1 d2 : Z) cutoff order : d0 <> 0%Z -> d1 <> 0%Z -> d2 <> 0%Z -> ~ (cutoff == 0)%Q ->
+  (weight [k0; k1; k2] [d0; d1; d2] cutoff order == 1 / (1 + qpow (freq2 k0 k1 k2 d0 d1 d2 / (cutoff * cutoff)) (Z.to_nat order)))%Q.
+Proof.
+  intros H0 H1 H2 Hc. unfold weight. cbn [combine map fold_right fst snd].
+  assert (q2term k0 d0 cutoff + (q2term k1 d1 cutoff + (q2term k2 d2 cutoff + 0)) == freq2 k0 k1 k2 d0 d1 d2 / (cutoff * cutoff))%Q as E.
+  { unfold q2term, freq2. field. repeat split; try assumption; apply inject_Z_nz; assumption. }
+  rewrite (qpow_comp _ _ (Z.to_nat order) E). reflexivity.
+Qed.
+
+(** half gain exactly at |f| = cutoff, for every order *)
+Lemma weight_half (k0 k1 k2 d0 d1 d2 : Z) cutoff order : d0 <> 0%Z -> d1 <> 0%Z -> d2 <> 0%Z -> ~ (cutoff == 0)%Q ->
+  (freq2 k0 k1 k2 d0 d1 d2 == cutoff * cutoff)%Q ->
+  (weight [k0; k1; k2] [d0; d1; d2] cutoff order == 1 # 2)%Q.
+Proof.
+  intros H0 H1 H2 Hc E. rewrite weight_formula by assumption.
+  assert (freq2 k0 k1 k2 d0 d1 d2 / (cutoff * cutoff) == 1)%Q as E1 by (rewrite E; field; exact Hc).
+  rewrite (qpow_comp _ _ (Z.to_nat order) E1).
+  assert (forall n, qpow 1 n == 1)%Q as P1 by (induction n as [|n IH]; cbn [qpow]; [reflexivity|rewrite IH; reflexivity]).
+  rewrite P1. reflexivity.
+Qed.
+
+(** low-pass: the gain never increases with |f| *)
+Lemma weight_monotone (k0 k1 k2 k0' k1' k2' d0 d1 d2 : Z) cutoff order :
+  d0 <> 0%Z -> d1 <> 0%Z -> d2 <> 0%Z -> ~ (cutoff == 0)%Q ->
+  (freq2 k0 k1 k2 d0 d1 d2 <= freq2 k0' k1' k2' d0 d1 d2)%Q ->
+  (weight [k0'; k1'; k2'] [d0; d1; d2] cutoff order <= weight [k0; k1; k2] [d0; d1; d2] cutoff order)%Q.
+Proof.
+  intros H0 H1 H2 Hc Hle. rewrite !weight_formula by assumption.
+  assert (0 < cutoff * cutoff)%Q as Hcc.
+  { destruct (Qlt_le_dec 0 (cutoff * cutoff)) as [|Hn]; [assumption|]. exfalso.
+    assert (0 <= cutoff * cutoff)%Q by (destruct (Qlt_le_dec cutoff 0); nra). assert (cutoff * cutoff == 0)%Q as Z0 by lra.
+    apply Qmult_integral in Z0. destruct Z0; contradiction. }
+  assert (0 <= freq2 k0 k1 k2 d0 d1 d2)%Q as Hf.
+  { unfold freq2. set (a := (inject_Z k0 / inject_Z d0)%Q). set (b := (inject_Z k1 / inject_Z d1)%Q). set (c := (inject_Z k2 / inject_Z d2)%Q). nra. }
+  set (x := (freq2 k0 k1 k2 d0 d1 d2 / (cutoff * cutoff))%Q). set (y := (freq2 k0' k1' k2' d0 d1 d2 / (cutoff * cutoff))%Q).
+  assert (0 <= x)%Q as Hx. { unfold x. apply Qle_shift_div_l; [exact Hcc|]. lra. }
+  assert (x <= y)%Q as Hxy. { unfold x, y. unfold Qdiv. apply Qmult_le_compat_r; [exact Hle|]. apply Qlt_le_weak, Qinv_lt_0_compat, Hcc. }
+  pose proof (qpow_le x y (Z.to_nat order) Hx Hxy) as Hp. pose proof (qpow_nonneg x (Z.to_nat order) Hx) as Hpx.
+  set (px := qpow x (Z.to_nat order)) in *. set (py := qpow y (Z.to_nat order)) in *.
+  apply Qle_shift_div_l; [lra|]. 
+  assert (1 / (1 + py) * (1 + px) == (1 + px) / (1 + py))%Q as -> by (field; lra).
+  apply Qle_shift_div_r; lra.
+Qed.
